@@ -1,4 +1,6 @@
 //! mc — bounded exhaustive exploration of rspack-sources against /verif/properties.jsonl
+mod c06;
+mod c08;
 mod engine;
 mod findings;
 mod model;
@@ -71,6 +73,9 @@ fn meta(prop: &str) -> Meta {
     "C03" => Meta { level: "model_checking", rule: "one case per distinct term; non-trivial = stream has >= 2 chunks and >= 1 mapped non-empty chunk", assumptions: tree_assume, workers: 16 },
     "C04" => Meta { level: "model_checking", rule: "one case per distinct term over {Raw*,Orig,Concat,Replace,Cached}; non-trivial = >= 1 surviving original character and >= 3 output characters", assumptions: tree_assume, workers: 16 },
     "C07" => Meta { level: "model_checking", rule: "view cases: one per distinct term (non-trivial = composite or binary leaf); fault cases: one per (term, failing writer k / short-write size / interrupt position)", assumptions: tree_assume, workers: 16 },
+    "C13" => Meta { level: "model_checking", rule: "one case per (law, base term, variant term); states = pool elements + ordered triples; non-trivial = the base has at least one mapped position", assumptions: tree_assume, workers: 16 },
+    "C06" => Meta { level: "model_checking", rule: "one case per distinct Concat/Replace term; non-trivial = >= 2 children with a mapped position (Concat) / >= 2 inner segments with a mapped survivor (Replace)", assumptions: tree_assume, workers: 16 },
+    "C08" => Meta { level: "model_checking", rule: "one case per (text, map) pair; non-trivial = map has >= 2 segments and attributes >= 1 character", assumptions: tree_assume, workers: 16 },
     "C11" => Meta { level: "model_checking", rule: "one case per distinct term; non-trivial = some map() has >= 2 segments", assumptions: tree_assume, workers: 16 },
     _ => panic!("unknown property {prop}"),
   }
@@ -79,6 +84,9 @@ fn meta(prop: &str) -> Meta {
 fn run_worker(prop: &str, tier: &str, k: usize, n: usize, ctx: &mut Ctx) {
   match prop {
     "C01" | "C02" | "C03" | "C04" | "C07" | "C11" => props::tree_worker(prop, tier, k, n, ctx),
+    "C13" => props::c13_worker(tier, k, n, ctx),
+    "C06" => props::c06_worker(tier, k, n, ctx),
+    "C08" => c08::worker(tier, k, n, ctx),
     _ => panic!("unknown property {prop}"),
   }
 }
@@ -86,6 +94,9 @@ fn run_worker(prop: &str, tier: &str, k: usize, n: usize, ctx: &mut Ctx) {
 fn bounds(prop: &str, tier: &str) -> Value {
   match prop {
     "C01" | "C02" | "C03" | "C04" | "C07" | "C11" => props::tree_bounds(prop, tier),
+    "C13" => props::c13_bounds(tier),
+    "C06" => props::c06_bounds(tier),
+    "C08" => c08::bounds(tier),
     _ => json!({}),
   }
 }
@@ -137,7 +148,7 @@ fn main() {
 
 fn replay(prop: &str, case: &Value, ctx: &mut Ctx) {
   match prop {
-    "C01" | "C02" | "C03" | "C04" | "C07" | "C11" => {
+    "C01" | "C02" | "C03" | "C04" | "C06" | "C07" | "C11" => {
       let t: term::Term = serde_json::from_value(case.clone()).expect("case is a term");
       match prop {
         "C01" => tree_checks::c01(ctx, &t),
@@ -149,8 +160,21 @@ fn replay(prop: &str, case: &Value, ctx: &mut Ctx) {
           tree_checks::c07_faults(ctx, &t)
         }
         "C11" => tree_checks::c11(ctx, &t),
+        "C06" => c06::c06(ctx, &t),
         _ => unreachable!(),
       }
+    }
+    "C08" => {
+      let t: term::Term = serde_json::from_value(case.clone()).expect("case is a term");
+      if let term::Term::Sms(s) = &t {
+        c08::c08_case(ctx, &s.value, &s.map);
+      }
+    }
+    "C13" => {
+      let base: term::Term = serde_json::from_value(case["base"].clone()).expect("base");
+      let variant: term::Term = serde_json::from_value(case["variant"].clone()).expect("variant");
+      let law = case["law"].as_str().unwrap_or("law");
+      tree_checks::c13_pair(ctx, law, &base, &variant, law.starts_with("replace_empty"));
     }
     _ => panic!("no replay for {prop}"),
   }
